@@ -290,12 +290,24 @@ Definition ok_inside (o : obs) : bool :=
 Definition ok_complete (o : obs) : bool :=
   negb (o_exc o) && forallb (fun i => is_some (o_script i)) (o_insts o).
 
-(** 3. scripts inside the own workspace (the temp directory with --usetmp),
-       captured output inside the own workspace *)
+(** [p] is exactly one component below [d] / at most [k] >= 1 components below [d] *)
+Definition np_child (d p : nat * list str) : bool :=
+  np_inside_eq d p && Nat.eqb (List.length (snd p)) (S (List.length (snd d))).
+Definition np_within (k : nat) (d p : nat * list str) : bool :=
+  np_inside d p && Nat.leb (List.length (snd p)) (k + List.length (snd d)).
+Definition child (d p : str) : bool := np_child (npath d) (npath p).
+Definition within (k : nat) (d p : str) : bool := np_within k (npath d) (npath p).
+
+(** 3. every script is a file directly in the own workspace (with --usetmp: in
+       the temp directory or in a sub-directory of it), captured output is a
+       file directly in the own workspace.  "Directly": the file name adds one
+       component, so the file is created in a directory Maestro made for the
+       step and not in some sub-directory nobody created. *)
 Definition ok_files_inside (o : obs) : bool :=
   forallb (fun i =>
-    forallb (inside (if is_empty (o_tmp o) then o_ws i else o_tmp o)) (o_scripts i) &&
-    forallb (inside (o_ws i)) (o_outs i)) (o_insts o).
+    forallb (fun f => if is_empty (o_tmp o) then child (o_ws i) f else within 2 (o_tmp o) f)
+            (o_scripts i) &&
+    forallb (child (o_ws i)) (o_outs i)) (o_insts o).
 
 (** 4. all files written for all instances are pairwise distinct (after
        normalisation): within one instance, and across instances *)
@@ -337,14 +349,15 @@ Definition sig_collide (h : str -> str) (st : study) : bool :=
 Definition sig_slash (h : str -> str) (st : study) : bool :=
   existsb (fun i => memN SLASH (ref_sname h (s_hashws st) i)) (s_insts st).
 
-(** K1c: a sanitised component is "." or ".." *)
+(** K1c = [sig_degenerate]: a sanitised component is ".", ".." or empty *)
 Definition sig_dots (h : str -> str) (st : study) : bool :=
   existsb (fun i => existsb (fun c => str_eqb c dot || str_eqb c dotdot) (ws_key h (s_hashws st) i))
           (s_insts st).
 
-(** K1d: a sanitised component is empty *)
 Definition sig_empty (h : str -> str) (st : study) : bool :=
   existsb (fun i => existsb is_empty (ws_key h (s_hashws st) i)) (s_insts st).
+Definition sig_degenerate (h : str -> str) (st : study) : bool :=
+  sig_dots h st || sig_empty h st.
 
 (** Well-formedness that staging guarantees / the harness supplies: a step is
     either expanded or not; digests look like digests and do not collide on the
@@ -388,12 +401,12 @@ Definition wf_study (h : str -> str) (st : study) : bool :=
 (** H10 as a boolean: well-formed and outside every known-finding signature. *)
 Definition h10b (h : str -> str) (st : study) : bool :=
   wf_study h st &&
-  negb (sig_collide h st) && negb (sig_slash h st) && negb (sig_dots h st) && negb (sig_empty h st).
+  negb (sig_collide h st) && negb (sig_slash h st) && negb (sig_degenerate h st).
 
 (* ------------------------------------------------------------------------ *)
 (** * Hygiene H10, as the hypothesis of the C10 theorems (Prop form)
 
-    It excludes exactly the input classes of the known findings K1a-K1d
+    It excludes the input classes of the known findings K1a-K1c
     (the signatures above) and states what staging / the run-time supply:
     a step is either expanded or not, instance names are distinct, digests look
     like digests and do not collide on this study's strings, the temp directory
